@@ -1,8 +1,13 @@
 import LeptosModel.Proofs.HydrateEraseView
 import LeptosModel.Proofs.ViewEqns
 import LeptosModel.Proofs.ViewAttrs
-/-! Helper lemmas for C05, part 9: erasing inert nodes commutes with `build` and `rebuild`
-(static string attributes: the fragment C03 proves). -/
+import LeptosModel.Proofs.ViewAttrs2
+import LeptosModel.Proofs.HydrateInitial
+/-! Helper lemmas for C05, part 9: erasing inert nodes commutes with `build` and `rebuild`, for every
+attribute fragment `Good` of plain attributes (`String`, `Option<String>`, `bool` values: their build / rebuild
+is `set_attribute` / `remove_attribute` on the element) for which C03 proves `rebuild` up to the attribute
+relation `R` (`Frag`): the static strings (`fragStatic`, `R = Eq`) and strings / options / booleans with distinct
+names (`fragKV`, `R = AttrsEq`: attributes compared as a map). -/
 namespace Leptos.Hydrate
 open Leptos.Dom Leptos.View
 
@@ -23,71 +28,154 @@ theorem rebuild_mismatch (er : Bool) (b : View) (st : State) (d : Dom) (h : head
     rebuild er b st d = (d, st) := by
   cases b <;> cases st <;> first | rfl | (simp only [rebuild]; done) | (cases h)
 
-/-! ### attributes (static strings) -/
+/-! ### attributes (plain values) -/
 
-theorem buildAttrs_str (Z : List Id) (el : Id) (hel : el ∉ Z) : ∀ (as : List AttrVal) (d : Dom), allStr as = true →
+theorem buildAttrs_erase (Z : List Id) (el : Id) (hel : el ∉ Z) : ∀ (as : List AttrVal) (d : Dom), as.all plainAttr = true →
     buildAttrs el as (erase d Z) = (erase (buildAttrs el as d).1 Z, (buildAttrs el as d).2) ∧
       Grow d (buildAttrs el as d).1
   | [], d, _ => ⟨rfl, Grow.refl d⟩
   | a :: as, d, h => by
-    cases a <;> simp only [allStr] at h <;> try (cases h; done)
-    rename_i n v
-    obtain ⟨h1, h2⟩ := buildAttrs_str Z el hel as (d.setAttribute el n v) h
-    simp only [buildAttrs, buildAttr]
-    rw [← erase_setAttribute d Z el n v hel, h1]
-    exact ⟨rfl, (grow_setAttribute d el n v).trans h2⟩
+    simp only [List.all_cons, Bool.and_eq_true] at h
+    have key : ∀ (d' : Dom) (s : AttrState), buildAttr el d a = (d', s) →
+        buildAttr el (erase d Z) a = (erase d' Z, s) → Grow d d' →
+        buildAttrs el (a :: as) (erase d Z) = (erase (buildAttrs el (a :: as) d).1 Z, (buildAttrs el (a :: as) d).2) ∧
+          Grow d (buildAttrs el (a :: as) d).1 := by
+      intro d' s e1 e2 hg
+      obtain ⟨h1, h2⟩ := buildAttrs_erase Z el hel as d' h.2
+      simp only [buildAttrs, e1, e2, h1]
+      exact ⟨by first | trivial | rfl, hg.trans h2⟩
+    cases a with
+    | str n v =>
+      exact key _ _ rfl (by simp only [buildAttr]; rw [erase_setAttribute d Z el n v hel]) (grow_setAttribute d el n v)
+    | ostr n o =>
+      cases o with
+      | none => exact key _ _ rfl rfl (Grow.refl d)
+      | some v =>
+        exact key _ _ rfl (by simp only [buildAttr]; rw [erase_setAttribute d Z el n v hel]) (grow_setAttribute d el n v)
+    | bool n b =>
+      cases b with
+      | false => exact key _ _ rfl rfl (Grow.refl d)
+      | true =>
+        exact key _ _ rfl (by simp only [buildAttr, if_true]; rw [erase_setAttribute d Z el n "" hel])
+          (by simpa using grow_setAttribute d el n "")
+    | _ => simp [plainAttr] at h
 
-theorem rebuildAttr_str (Z : List Id) (er : Bool) (el : Id) (hel : el ∉ Z) (n v : String) (s : AttrState) (d : Dom) :
-    rebuildAttr er el (erase d Z) (.str n v) s =
-        (erase (rebuildAttr er el d (.str n v) s).1 Z, (rebuildAttr er el d (.str n v) s).2) ∧
-      Grow d (rebuildAttr er el d (.str n v) s).1 := by
-  cases s <;> simp only [rebuildAttr] <;> try (exact ⟨trivial, Grow.refl d⟩)
-  rename_i prev
-  by_cases hv : (v != prev) = true
-  · simp only [hv, if_true]
-    exact ⟨by rw [erase_setAttribute d Z el n v hel], grow_setAttribute d el n v⟩
-  · simp only [hv]
-    exact ⟨rfl, Grow.refl d⟩
+macro "noop_case" : tactic => `(tactic| first | exact ⟨rfl, Grow.refl _⟩ | exact ⟨trivial, Grow.refl _⟩)
 
-theorem rebuildAttrs_str (Z : List Id) (er : Bool) (el : Id) (hel : el ∉ Z) : ∀ (as : List AttrVal) (ss : List AttrState)
-    (d : Dom), allStr as = true →
+theorem rebuildAttr_erase (Z : List Id) (er : Bool) (el : Id) (hel : el ∉ Z) (a : AttrVal) (ha : plainAttr a = true)
+    (s : AttrState) (d : Dom) :
+    rebuildAttr er el (erase d Z) a s = (erase (rebuildAttr er el d a s).1 Z, (rebuildAttr er el d a s).2) ∧
+      Grow d (rebuildAttr er el d a s).1 := by
+  have set : ∀ (n v : String) (st : AttrState),
+      (((erase d Z).setAttribute el n v, st) : Dom × AttrState) =
+        (erase (d.setAttribute el n v, st).1 Z, (d.setAttribute el n v, st).2) ∧ Grow d (d.setAttribute el n v, st).1 :=
+    fun n v _ => ⟨by rw [erase_setAttribute d Z el n v hel], grow_setAttribute d el n v⟩
+  have rem : ∀ (n : String) (st : AttrState),
+      (((erase d Z).removeAttribute el n, st) : Dom × AttrState) =
+        (erase (d.removeAttribute el n, st).1 Z, (d.removeAttribute el n, st).2) ∧ Grow d (d.removeAttribute el n, st).1 :=
+    fun n _ => ⟨by rw [erase_removeAttribute d Z el n hel], grow_removeAttribute d el n⟩
+  cases a with
+  | str n v =>
+    cases s <;> simp only [rebuildAttr] <;> try (noop_case)
+    rename_i prev
+    by_cases hv : (v != prev) = true
+    · simp only [hv, if_true]; exact set n v _
+    · simp only [hv]; noop_case
+  | ostr n o =>
+    cases s <;> try (cases o <;> simp only [rebuildAttr] <;> noop_case)
+    rename_i p
+    cases o with
+    | none =>
+      cases p with
+      | none => simp only [rebuildAttr]; noop_case
+      | some _ => simp only [rebuildAttr]; exact rem n _
+    | some v =>
+      cases p with
+      | none => simp only [rebuildAttr]; exact set n v _
+      | some prev =>
+        simp only [rebuildAttr]
+        by_cases hv : (v != prev) = true
+        · simp only [hv, if_true]; exact set n v _
+        · simp only [hv]; noop_case
+  | bool n b =>
+    cases s <;> simp only [rebuildAttr] <;> try (noop_case)
+    rename_i prev
+    by_cases hb : (b != prev) = true
+    · simp only [hb, if_true]
+      cases b with
+      | true => simp only [if_true]; exact set n "" _
+      | false => simp only [Bool.false_eq_true, if_false]; exact rem n _
+    · simp only [hb]; noop_case
+  | _ => simp [plainAttr] at ha
+
+theorem rebuildAttrs_erase (Z : List Id) (er : Bool) (el : Id) (hel : el ∉ Z) : ∀ (as : List AttrVal) (ss : List AttrState)
+    (d : Dom), as.all plainAttr = true →
     rebuildAttrs er el as ss (erase d Z) = (erase (rebuildAttrs er el as ss d).1 Z, (rebuildAttrs er el as ss d).2) ∧
       Grow d (rebuildAttrs er el as ss d).1
   | [], ss, d, _ => by simp only [rebuildAttrs]; exact ⟨trivial, Grow.refl d⟩
   | a :: as, [], d, _ => by simp only [rebuildAttrs]; exact ⟨trivial, Grow.refl d⟩
   | a :: as, s :: ss, d, h => by
-    cases a <;> simp only [allStr] at h <;> try (cases h; done)
-    rename_i n v
-    obtain ⟨h1, g1⟩ := rebuildAttr_str Z er el hel n v s d
-    obtain ⟨h2, g2⟩ := rebuildAttrs_str Z er el hel as ss (rebuildAttr er el d (.str n v) s).1 h
+    simp only [List.all_cons, Bool.and_eq_true] at h
+    obtain ⟨h1, g1⟩ := rebuildAttr_erase Z er el hel a h.1 s d
+    obtain ⟨h2, g2⟩ := rebuildAttrs_erase Z er el hel as ss (rebuildAttr er el d a s).1 h.2
     simp only [rebuildAttrs]
     rw [h1]
     simp only []
     rw [h2]
     exact ⟨rfl, g1.trans g2⟩
 
+/-! ### attribute fragments -/
+
+/-- an attribute fragment `Good` of plain attributes for which C03 proves build and rebuild up to `R` -/
+structure Frag (R : List (String × String) → List (String × String) → Prop) (Good : List AttrVal → Prop) : Prop where
+  fresh : ∀ as, Good as → AttrsFresh R as
+  rebuild : ∀ as bs, Good as → Good bs → as.map AttrVal.ty = bs.map AttrVal.ty → AttrsRebuild R as bs
+  plain : ∀ as, Good as → PlainAttrs as
+  refl : ∀ l, R l l
+
+theorem static_plain : ∀ (as : List AttrVal), allStr as = true → as.all plainAttr = true
+  | [], _ => rfl
+  | a :: as, h => by
+    cases a <;> simp only [allStr] at h <;> try (cases h; done)
+    simp [plainAttr, static_plain as h]
+
+/-- static string attributes with distinct names, attribute lists compared exactly -/
+theorem fragStatic : Frag Eq StaticAttrs :=
+  ⟨AttrsFresh_static, fun as bs x y z => AttrsRebuild_static as bs x y z, fun as h => static_plain as h.1, fun _ => rfl⟩
+
+/-- `String` / `Option<String>` / `bool` attribute values with distinct names (decidable) -/
+def KVPlain (as : List AttrVal) : Prop := PlainAttrs as ∧ KVAttrs as
+
+instance (as : List AttrVal) : Decidable (KVPlain as) := by unfold KVPlain; infer_instance
+
+/-- … attribute lists compared as maps (`None` / `false` removes an attribute, a later `Some` / `true` appends it) -/
+theorem fragKV : Frag AttrsEq KVPlain :=
+  ⟨fun as h => AttrsFresh_kv as h.2, fun as bs x y z => AttrsRebuild_kv as bs x.2 y.2 z, fun _ h => h.1, AttrsEq.refl⟩
+
+variable {R : List (String × String) → List (String × String) → Prop} {Good : List AttrVal → Prop}
+
 /-! ### build -/
 
-theorem grow_of_built {d d' : Dom} {v : View} {st : State} (h : Built Eq d d' v st) : Grow d d' :=
+theorem grow_of_built {d d' : Dom} {v : View} {st : State} (h : Built R d d' v st) : Grow d d' :=
   ⟨h.next_le, fun x hx => by simp only [Dom.kindOf, h.frame x hx]⟩
 
-theorem allEl_fresh {v : View} (h : AllEl StaticAttrs v) : AllEl (AttrsFresh Eq) v :=
-  AllEl.mono AttrsFresh_static v h
+theorem allEl_fresh (F : Frag R Good) {v : View} (h : AllEl Good v) : AllEl (AttrsFresh R) v :=
+  AllEl.mono F.fresh v h
 
-theorem allElList_fresh {vs : List View} (h : AllElList StaticAttrs vs) : AllElList (AttrsFresh Eq) vs :=
-  AllElList.mono AttrsFresh_static vs h
+theorem allElList_fresh (F : Frag R Good) {vs : List View} (h : AllElList Good vs) : AllElList (AttrsFresh R) vs :=
+  AllElList.mono F.fresh vs h
 
-theorem grow_build (v : View) (d : Dom) (h : AllEl StaticAttrs v) : Grow d (build v d).1 :=
-  grow_of_built (build_spec v d (allEl_fresh h))
+theorem grow_build (F : Frag R Good) (v : View) (d : Dom) (h : AllEl Good v) : Grow d (build v d).1 :=
+  grow_of_built (build_spec v d (allEl_fresh F h))
 
-theorem grow_buildList (vs : List View) (d : Dom) (h : AllElList StaticAttrs vs) : Grow d (buildList vs d).1 :=
-  grow_of_built (buildList_spec vs d (allElList_fresh h))
+theorem grow_buildList (F : Frag R Good) (vs : List View) (d : Dom) (h : AllElList Good vs) : Grow d (buildList vs d).1 :=
+  grow_of_built (buildList_spec vs d (allElList_fresh F h))
 
 theorem sideZ_fresh {d : Dom} {Z : List Id} (hs : SideZ d Z) {x : Id} (hx : d.next ≤ x) : x ∉ Z := by
   intro hm; have := hs.lt x hm; omega_nat
 
 mutual
-theorem erase_build (Z : List Id) : (v : View) → ∀ (d : Dom), SideZ d Z → AllEl StaticAttrs v →
+theorem erase_build (F : Frag R Good) (Z : List Id) : (v : View) → ∀ (d : Dom), SideZ d Z → AllEl Good v →
     build v (erase d Z) = (erase (build v d).1 Z, (build v d).2)
   | .text s, d, hs, _ => by
     simp only [build_text, erase_next]
@@ -99,23 +187,23 @@ theorem erase_build (Z : List Id) : (v : View) → ∀ (d : Dom), SideZ d Z → 
     simp only [build_onone, erase_next]
     rw [erase_create d Z _ _ (sideZ_fresh hs (Nat.le_refl _))]
   | .osome v, d, hs, hv => by
-    simp only [build_osome, erase_build Z v d hs (by simpa [AllEl] using hv)]
+    simp only [build_osome, erase_build F Z v d hs (by simpa [AllEl] using hv)]
   | .either _ _ v, d, hs, hv => by
-    simp only [build_either, erase_build Z v d hs (by simpa [AllEl] using hv)]
+    simp only [build_either, erase_build F Z v d hs (by simpa [AllEl] using hv)]
   | .any _ v, d, hs, hv => by
-    simp only [build_any, erase_build Z v d hs (by simpa [AllEl] using hv)]
+    simp only [build_any, erase_build F Z v d hs (by simpa [AllEl] using hv)]
   | .tuple vs, d, hs, hv => by
-    simp only [build_tuple, erase_buildList Z vs d hs (by simpa [AllEl] using hv)]
+    simp only [build_tuple, erase_buildList F Z vs d hs (by simpa [AllEl] using hv)]
   | .vec vs, d, hs, hv => by
     have hg := grow_create d .comment ""
     simp only [build_vec, erase_next]
     rw [← erase_create d Z _ _ (sideZ_fresh hs (Nat.le_refl _)),
-      erase_buildList Z vs _ (hs.grow hg) (by simpa [AllEl] using hv)]
+      erase_buildList F Z vs _ (hs.grow hg) (by simpa [AllEl] using hv)]
   | .elem tag as c, d, hs, hv => by
     simp only [AllEl] at hv
     have hel : d.next ∉ Z := sideZ_fresh hs (Nat.le_refl _)
     have hg1 := grow_create d (.elem tag) ""
-    obtain ⟨ha, hga⟩ := buildAttrs_str Z d.next hel as (d.create (.elem tag) "").1 hv.1.1
+    obtain ⟨ha, hga⟩ := buildAttrs_erase Z d.next hel as (d.create (.elem tag) "").1 (F.plain _ hv.1)
     simp only [build_elem, erase_next]
     rw [← erase_create d Z _ _ hel, ha]
     by_cases hvoid : isVoid tag = true
@@ -123,8 +211,8 @@ theorem erase_build (Z : List Id) : (v : View) → ∀ (d : Dom), SideZ d Z → 
     · have hvoid' : isVoid tag = false := by simpa using hvoid
       simp only [hvoid', Bool.false_eq_true, if_false]
       have hs2 : SideZ (buildAttrs d.next as (d.create (.elem tag) "").1).1 Z := hs.grow (hg1.trans hga)
-      have hb := build_spec (R := Eq) c (buildAttrs d.next as (d.create (.elem tag) "").1).1 (allEl_fresh hv.2)
-      rw [erase_build Z c _ hs2 hv.2]
+      have hb := build_spec (R := R) c (buildAttrs d.next as (d.create (.elem tag) "").1).1 (allEl_fresh F hv.2)
+      rw [erase_build F Z c _ hs2 hv.2]
       simp only []
       have hroots : RootsOk Z (build c (buildAttrs d.next as (d.create (.elem tag) "").1).1).2 none := by
         intro x hx
@@ -132,15 +220,15 @@ theorem erase_build (Z : List Id) : (v : View) → ∀ (d : Dom), SideZ d Z → 
         have := hb.range x (roots_sub_owned _ x hx)
         exact sideZ_fresh hs2 this.1
       rw [erase_mount Z _ _ d.next none (hs2.grow (grow_of_built hb)) hroots (by simp)]
-theorem erase_buildList (Z : List Id) : (vs : List View) → ∀ (d : Dom), SideZ d Z → AllElList StaticAttrs vs →
+theorem erase_buildList (F : Frag R Good) (Z : List Id) : (vs : List View) → ∀ (d : Dom), SideZ d Z → AllElList Good vs →
     buildList vs (erase d Z) = (erase (buildList vs d).1 Z, (buildList vs d).2)
   | [], _, _, _ => rfl
   | v :: vs, d, hs, hv => by
     simp only [AllElList] at hv
     simp only [buildList_cons]
-    rw [erase_build Z v d hs hv.1]
+    rw [erase_build F Z v d hs hv.1]
     simp only []
-    rw [erase_buildList Z vs _ (hs.grow (grow_build v d hv.1)) hv.2]
+    rw [erase_buildList F Z vs _ (hs.grow (grow_build F v d hv.1)) hv.2]
 end
 
 /-! ### rebuild -/
@@ -184,12 +272,12 @@ theorem step_same (Z : List Id) (d : Dom) (st : State) (ho : OwnOk Z d st) :
   ⟨rfl, Grow.refl d, fun x hx => ⟨Or.inl hx, (ho x hx).2⟩⟩
 
 /-- replacing a mounted state by a freshly built one -/
-theorem step_replace (Z : List Id) (old : State) (v : View) (d : Dom) (hs : SideZ d Z) (ho : OwnOk Z d old)
-    (hv : AllEl StaticAttrs v) (wrap : State → State) (hw : ∀ s, owned (wrap s) = owned s) :
+theorem step_replace (F : Frag R Good) (Z : List Id) (old : State) (v : View) (d : Dom) (hs : SideZ d Z) (ho : OwnOk Z d old)
+    (hv : AllEl Good v) (wrap : State → State) (hw : ∀ s, owned (wrap s) = owned s) :
     Step Z d (owned old)
       (replaceState old (build v (erase d Z)).2 (build v (erase d Z)).1, wrap (build v (erase d Z)).2)
       (replaceState old (build v d).2 (build v d).1, wrap (build v d).2) := by
-  have hb := build_spec (R := Eq) v d (allEl_fresh hv)
+  have hb := build_spec (R := R) v d (allEl_fresh F hv)
   have hg := grow_of_built hb
   have hold : ∀ x ∈ old.roots, x ∉ Z := fun x hx => (ho x (roots_sub_owned old x hx)).1
   have hnew : ∀ y ∈ (build v d).2.roots, y ∉ Z ∧ y ∉ old.roots := by
@@ -199,7 +287,7 @@ theorem step_replace (Z : List Id) (old : State) (v : View) (d : Dom) (hs : Side
     have := (ho y (roots_sub_owned old y hm)).2
     omega_nat
   refine ⟨?_, hg.trans (grow_replaceState old _ _), ?_⟩
-  · rw [erase_build Z v d hs hv]
+  · rw [erase_build F Z v d hs hv]
     simp only []
     rw [erase_replaceState Z old _ _ (hs.grow hg) hold hnew]
   · intro x hx
@@ -216,8 +304,8 @@ macro "mismatch_case" ho:ident : tactic =>
   `(tactic| (rw [rebuild_mismatch _ _ _ _ rfl, rebuild_mismatch _ _ _ _ rfl]; exact step_same _ _ _ $ho))
 
 mutual
-theorem erase_rebuild (Z : List Id) : (b : View) → ∀ (er : Bool) (st : State) (d : Dom), SideZ d Z → OwnOk Z d st →
-    AllEl StaticAttrs b → Step Z d (owned st) (rebuild er b st (erase d Z)) (rebuild er b st d)
+theorem erase_rebuild (F : Frag R Good) (Z : List Id) : (b : View) → ∀ (er : Bool) (st : State) (d : Dom), SideZ d Z → OwnOk Z d st →
+    AllEl Good b → Step Z d (owned st) (rebuild er b st (erase d Z)) (rebuild er b st d)
   | .text s, er, st, d, hs, ho, _ => by
     cases st with
     | text id prev =>
@@ -240,7 +328,7 @@ theorem erase_rebuild (Z : List Id) : (b : View) → ∀ (er : Bool) (st : State
     cases st with
     | elem el ass cs =>
       have hel := ho el (by simp [owned])
-      obtain ⟨ha, hga⟩ := rebuildAttrs_str Z er el hel.1 as ass d hv.1.1
+      obtain ⟨ha, hga⟩ := rebuildAttrs_erase Z er el hel.1 as ass d (F.plain _ hv.1)
       cases cs with
       | none =>
         simp only [rebuild_elem_none]
@@ -254,7 +342,7 @@ theorem erase_rebuild (Z : List Id) : (b : View) → ∀ (er : Bool) (st : State
         simp only []
         have ho2 : OwnOk Z (rebuildAttrs er el as ass d).1 cst :=
           ownOk_sub ho hga (fun x hx => by simp [owned, ownedOpt, hx])
-        have ih := erase_rebuild Z c er cst _ (hs.grow hga) ho2 hv.2
+        have ih := erase_rebuild F Z c er cst _ (hs.grow hga) ho2 hv.2
         rw [ih.comm]
         refine ⟨rfl, hga.trans ih.grow, ?_⟩
         intro x hx
@@ -272,7 +360,7 @@ theorem erase_rebuild (Z : List Id) : (b : View) → ∀ (er : Bool) (st : State
     cases st with
     | tuple sts =>
       simp only [rebuild_tuple]
-      have ih := erase_rebuildList Z vs er sts d hs (by simpa [OwnOk, OwnOkL, owned] using ho) (by simpa [AllEl] using hv)
+      have ih := erase_rebuildList F Z vs er sts d hs (by simpa [OwnOk, OwnOkL, owned] using ho) (by simpa [AllEl] using hv)
       rw [ih.comm]
       exact ⟨rfl, ih.grow, by simpa [owned] using ih.own⟩
     | _ => mismatch_case ho
@@ -285,7 +373,7 @@ theorem erase_rebuild (Z : List Id) : (b : View) → ∀ (er : Bool) (st : State
         subst hi
         exact step_same Z d _ ho
       · simp only [hi, if_false]
-        have := step_replace Z old .unit d hs (by simpa [OwnOk, owned] using ho) (by simp [AllEl])
+        have := step_replace F Z old .unit d hs (by simpa [OwnOk, owned] using ho) (by simp [AllEl])
           (fun s => State.either 1 s) (fun s => by simp [owned])
         simpa [owned] using this
     | _ => mismatch_case ho
@@ -295,11 +383,11 @@ theorem erase_rebuild (Z : List Id) : (b : View) → ∀ (er : Bool) (st : State
       simp only [rebuild_osome]
       by_cases hi : i = 0
       · simp only [hi, if_true]
-        have ih := erase_rebuild Z v er old d hs (by simpa [OwnOk, owned] using ho) (by simpa [AllEl] using hv)
+        have ih := erase_rebuild F Z v er old d hs (by simpa [OwnOk, owned] using ho) (by simpa [AllEl] using hv)
         rw [ih.comm]
         exact ⟨rfl, ih.grow, by simpa [owned] using ih.own⟩
       · simp only [hi, if_false]
-        have := step_replace Z old v d hs (by simpa [OwnOk, owned] using ho) (by simpa [AllEl] using hv)
+        have := step_replace F Z old v d hs (by simpa [OwnOk, owned] using ho) (by simpa [AllEl] using hv)
           (fun s => State.either 0 s) (fun s => by simp [owned])
         simpa [owned] using this
     | _ => mismatch_case ho
@@ -309,11 +397,11 @@ theorem erase_rebuild (Z : List Id) : (b : View) → ∀ (er : Bool) (st : State
       simp only [rebuild_either]
       by_cases hi : i = j
       · simp only [hi, if_true]
-        have ih := erase_rebuild Z v er old d hs (by simpa [OwnOk, owned] using ho) (by simpa [AllEl] using hv)
+        have ih := erase_rebuild F Z v er old d hs (by simpa [OwnOk, owned] using ho) (by simpa [AllEl] using hv)
         rw [ih.comm]
         exact ⟨rfl, ih.grow, by simpa [owned] using ih.own⟩
       · simp only [hi, if_false]
-        have := step_replace Z old v d hs (by simpa [OwnOk, owned] using ho) (by simpa [AllEl] using hv)
+        have := step_replace F Z old v d hs (by simpa [OwnOk, owned] using ho) (by simpa [AllEl] using hv)
           (fun s => State.either i s) (fun s => by simp [owned])
         simpa [owned] using this
     | _ => mismatch_case ho
@@ -323,11 +411,11 @@ theorem erase_rebuild (Z : List Id) : (b : View) → ∀ (er : Bool) (st : State
       simp only [rebuild_any]
       by_cases hi : Ty.beq ty ty' = true
       · simp only [hi, if_true]
-        have ih := erase_rebuild Z v true old d hs (by simpa [OwnOk, owned] using ho) (by simpa [AllEl] using hv)
+        have ih := erase_rebuild F Z v true old d hs (by simpa [OwnOk, owned] using ho) (by simpa [AllEl] using hv)
         rw [ih.comm]
         exact ⟨rfl, ih.grow, by simpa [owned] using ih.own⟩
       · simp only [hi]
-        have := step_replace Z old v d hs (by simpa [OwnOk, owned] using ho) (by simpa [AllEl] using hv)
+        have := step_replace F Z old v d hs (by simpa [OwnOk, owned] using ho) (by simpa [AllEl] using hv)
           (fun s => State.any ty s) (fun s => by simp [owned])
         simpa [owned] using this
     | _ => mismatch_case ho
@@ -335,15 +423,15 @@ theorem erase_rebuild (Z : List Id) : (b : View) → ∀ (er : Bool) (st : State
     cases st with
     | vec sts mk =>
       have hmk := ho mk (by simp [owned])
-      have hvs : AllElList StaticAttrs vs := by simpa [AllEl] using hv
+      have hvs : AllElList Good vs := by simpa [AllEl] using hv
       simp only [rebuild_vec, erase_next]
       by_cases he : sts.isEmpty = true
       · simp only [he, if_true]
         have hg1 := grow_create d .comment ""
         have hs1 := hs.grow hg1
-        have hb := buildList_spec (R := Eq) vs (d.create .comment "").1 (allElList_fresh hvs)
+        have hb := buildList_spec (R := R) vs (d.create .comment "").1 (allElList_fresh F hvs)
         have hg2 := grow_of_built hb
-        rw [← erase_create d Z _ _ (sideZ_fresh hs (Nat.le_refl _)), erase_buildList Z vs _ hs1 hvs]
+        rw [← erase_create d Z _ _ (sideZ_fresh hs (Nat.le_refl _)), erase_buildList F Z vs _ hs1 hvs]
         simp only []
         have hroots : ∀ y ∈ State.rootsList (buildList vs (d.create .comment "").1).2, y ∉ Z ∧ y ≠ mk := by
           intro y hy
@@ -376,7 +464,7 @@ theorem erase_rebuild (Z : List Id) : (b : View) → ∀ (er : Bool) (st : State
           exact ⟨Or.inl (by simp [owned]), Nat.lt_of_lt_of_le hmk.2 (grow_unmountList sts d).next_le⟩
         · have hve' : vs.isEmpty = false := by simpa using hve
           simp only [hve', Bool.false_eq_true, if_false]
-          have ih := erase_rebuildZip Z vs er sts mk d hs
+          have ih := erase_rebuildZip F Z vs er sts mk d hs
             (fun x hx => ho x (by simp [owned, hx])) hmk hvs
           rw [ih.comm]
           refine ⟨rfl, ih.grow, ?_⟩
@@ -391,8 +479,8 @@ theorem erase_rebuild (Z : List Id) : (b : View) → ∀ (er : Bool) (st : State
           · subst hx
             exact ⟨Or.inl (by simp [owned]), Nat.lt_of_lt_of_le hmk.2 ih.grow.next_le⟩
     | _ => mismatch_case ho
-theorem erase_rebuildList (Z : List Id) : (vs : List View) → ∀ (er : Bool) (sts : List State) (d : Dom), SideZ d Z →
-    OwnOkL Z d sts → AllElList StaticAttrs vs →
+theorem erase_rebuildList (F : Frag R Good) (Z : List Id) : (vs : List View) → ∀ (er : Bool) (sts : List State) (d : Dom), SideZ d Z →
+    OwnOkL Z d sts → AllElList Good vs →
     StepL Z d (ownedList sts) (rebuildList er vs sts (erase d Z)) (rebuildList er vs sts d)
   | [], er, sts, d, _, ho, _ =>
     ⟨by cases sts <;> rfl, by cases sts <;> exact Grow.refl d, fun x hx => by
@@ -404,12 +492,12 @@ theorem erase_rebuildList (Z : List Id) : (vs : List View) → ∀ (er : Bool) (
     simp only [AllElList] at hv
     simp only [rebuildList_cons]
     have ho1 : OwnOk Z d s := fun x hx => ho x (by simp [ownedList, hx])
-    have ih1 := erase_rebuild Z v er s d hs ho1 hv.1
+    have ih1 := erase_rebuild F Z v er s d hs ho1 hv.1
     rw [ih1.comm]
     simp only []
     have ho2 : OwnOkL Z (rebuild er v s d).1 ss := fun x hx =>
       ⟨(ho x (by simp [ownedList, hx])).1, Nat.lt_of_lt_of_le (ho x (by simp [ownedList, hx])).2 ih1.grow.next_le⟩
-    have ih2 := erase_rebuildList Z vs er ss _ (hs.grow ih1.grow) ho2 hv.2
+    have ih2 := erase_rebuildList F Z vs er ss _ (hs.grow ih1.grow) ho2 hv.2
     rw [ih2.comm]
     refine ⟨rfl, ih1.grow.trans ih2.grow, ?_⟩
     intro x hx
@@ -425,8 +513,8 @@ theorem erase_rebuildList (Z : List Id) : (vs : List View) → ∀ (er : Bool) (
       rcases h1 with h1 | h1
       · exact Or.inl (by simp [ownedList, h1])
       · exact Or.inr (Nat.le_trans ih1.grow.next_le h1)
-theorem erase_rebuildZip (Z : List Id) : (vs : List View) → ∀ (er : Bool) (sts : List State) (mk : Id) (d : Dom),
-    SideZ d Z → OwnOkL Z d sts → (mk ∉ Z ∧ mk < d.next) → AllElList StaticAttrs vs →
+theorem erase_rebuildZip (F : Frag R Good) (Z : List Id) : (vs : List View) → ∀ (er : Bool) (sts : List State) (mk : Id) (d : Dom),
+    SideZ d Z → OwnOkL Z d sts → (mk ∉ Z ∧ mk < d.next) → AllElList Good vs →
     StepL Z d (ownedList sts) (rebuildZip er vs sts mk (erase d Z)) (rebuildZip er vs sts mk d)
   | [], er, sts, mk, d, _, ho, _, _ => by
     simp only [rebuildZip_nil]
@@ -436,12 +524,12 @@ theorem erase_rebuildZip (Z : List Id) : (vs : List View) → ∀ (er : Bool) (s
     simp only [AllElList] at hv
     simp only [rebuildZip_cons]
     have ho1 : OwnOk Z d s := fun x hx => ho x (by simp [ownedList, hx])
-    have ih1 := erase_rebuild Z v er s d hs ho1 hv.1
+    have ih1 := erase_rebuild F Z v er s d hs ho1 hv.1
     rw [ih1.comm]
     simp only []
     have ho2 : OwnOkL Z (rebuild er v s d).1 ss := fun x hx =>
       ⟨(ho x (by simp [ownedList, hx])).1, Nat.lt_of_lt_of_le (ho x (by simp [ownedList, hx])).2 ih1.grow.next_le⟩
-    have ih2 := erase_rebuildZip Z vs er ss mk _ (hs.grow ih1.grow) ho2
+    have ih2 := erase_rebuildZip F Z vs er ss mk _ (hs.grow ih1.grow) ho2
       ⟨hmk.1, Nat.lt_of_lt_of_le hmk.2 ih1.grow.next_le⟩ hv.2
     rw [ih2.comm]
     refine ⟨rfl, ih1.grow.trans ih2.grow, ?_⟩
@@ -461,9 +549,9 @@ theorem erase_rebuildZip (Z : List Id) : (vs : List View) → ∀ (er : Bool) (s
   | v :: vs, er, [], mk, d, hs, ho, hmk, hv => by
     simp only [AllElList] at hv
     simp only [rebuildZip_add]
-    have hb := build_spec (R := Eq) v d (allEl_fresh hv.1)
+    have hb := build_spec (R := R) v d (allEl_fresh F hv.1)
     have hg1 := grow_of_built hb
-    rw [erase_build Z v d hs hv.1]
+    rw [erase_build F Z v d hs hv.1]
     simp only []
     have hroots : ∀ y ∈ (build v d).2.roots, y ∉ Z ∧ y ≠ mk := by
       intro y hy
@@ -471,7 +559,7 @@ theorem erase_rebuildZip (Z : List Id) : (vs : List View) → ∀ (er : Bool) (s
       exact ⟨sideZ_fresh hs this.1, by have := hmk.2; omega_nat⟩
     rw [← erase_mountBefore Z _ mk _ (hs.grow hg1) hmk.1 hroots]
     have hg2 := grow_mountBefore (build v d).2 mk (build v d).1
-    have ih2 := erase_rebuildZip Z vs er [] mk _ (hs.grow (hg1.trans hg2)) (fun x hx => by simp [ownedList] at hx)
+    have ih2 := erase_rebuildZip F Z vs er [] mk _ (hs.grow (hg1.trans hg2)) (fun x hx => by simp [ownedList] at hx)
       ⟨hmk.1, Nat.lt_of_lt_of_le hmk.2 (hg1.trans hg2).next_le⟩ hv.2
     rw [ih2.comm]
     refine ⟨rfl, (hg1.trans hg2).trans ih2.grow, ?_⟩
